@@ -489,6 +489,40 @@ def g_drain(rng):
     return prog, {"gen": "g_drain", "kind": kind, "kw": kw, "position": position, "how": how, "slow_pickle": slow, "family": family, "env": env}
 
 
+def g_many_at_exit(rng):
+    """C05: the script ends with many executors alive (idle ones and some with work in flight), none of them shut down:
+    the exit hook must get every manager thread to drain, stop its workers and end."""
+    n_idle = rng.randint(5, 10)
+    ops = []
+    for i in range(n_idle):
+        ops.append({"op": "new", "ex": "i%d" % i, "kind": "plain", "kw": {"max_workers": 1, "timeout": rng.choice([None, 10])}})
+        ops.append({"op": "submit", "ex": "i%d" % i, "task": t_ok(rng)})
+    ops.append({"op": "wait", "futs": "all"})
+    for j in range(rng.randint(1, 2)):
+        ops.append({"op": "new", "ex": "b%d" % j, "kind": "plain", "kw": {"max_workers": 1, "timeout": 10}})
+        for _ in range(rng.randint(2, 4)):
+            ops.append({"op": "submit", "ex": "b%d" % j, "task": t_sleep(rng, 0.1, 0.3)})
+    return {"threads": [ops], "end": "return"}, {"gen": "g_many_at_exit", "kind": "plain", "kw": {"max_workers": 1, "timeout": 10}, "position": "exit", "how": "exit", "slow_pickle": False, "family": "many_at_exit", "env": {}}
+
+
+def g_slow_exit(rng):
+    """C05: workers that need 1.5-3 s to leave after their sentinel (atexit hook registered by the initializer)."""
+    d = rng.choice([1.5, 2.5, 3.0])
+    kind = rng.choice(["plain", "plain", "reusable"])
+    kw = {"max_workers": rng.randint(1, 3), "timeout": 10, "initializer": {"token": "slow", "slow_exit": d}}
+    ops = [{"op": "new", "ex": "e", "kind": kind, "kw": kw}]
+    body = [{"op": "submit", "ex": "e", "task": t_ok(rng)} for _ in range(rng.randint(2, 6))]
+    how = rng.choice(["shutdown_wait", "with", "shutdown_nowait"])
+    if how == "shutdown_wait":
+        ops += body + [{"op": "wait", "futs": "all"}, {"op": "shutdown", "ex": "e", "wait": True}]
+    elif how == "with":
+        ops += [{"op": "with", "ex": "e", "body": body}]
+    else:
+        ops += body + [{"op": "shutdown", "ex": "e", "wait": False}, {"op": "join_mgr", "ex": "e"}]
+    ops.append({"op": "census", "after_shutdown": True, "grace": 5.0})
+    return {"threads": [ops], "end": "return"}, {"gen": "g_slow_exit", "kind": kind, "kw": kw, "position": "after_done", "how": how, "slow_pickle": False, "family": "slow_exit", "env": {}}
+
+
 def g_idle(rng, family=None):
     """C07: bursts separated by pauses around the idle timeout; resizes and shutdown in the same history.
     family 'nowait_pending': shutdown(wait=False) while slowly pickled work is still on its way and every idle timer fires
